@@ -6,6 +6,9 @@
 
 use crate::datamodel::Data;
 use crate::fsm::GlobalData;
+#[cfg(rfsm_verif)]
+use crate::verif_seams::collections::HashMap;
+#[cfg(not(rfsm_verif))]
 use std::collections::HashMap;
 #[cfg(rfsm_verif)]
 use crate::verif_seams::sync::{Arc, Mutex, MutexGuard};
